@@ -119,7 +119,25 @@ class Effects:
                     # x.m(...) may return (part of) x: observer/exposer result aliases x's state
                     r = root_name(f.value)
                     if r in al:
-                        # calls that return self or inner state
+                        # a repository method whose summary says what it returns: the receiver's state only if some
+                        # candidate returns self / inner state, an argument only if it returns that parameter
+                        cands = [c for c in self.by_name.get(f.attr, []) if c.cls is not None]
+                        if cands:
+                            out = set()
+                            for c in cands:
+                                if c.params and c.params[0] in ('self', 'cls'):
+                                    if c.params[0] in c.returns_param:
+                                        out |= al[r]
+                                    rest = c.params[1:]
+                                else:
+                                    rest = c.params
+                                for p in rest:
+                                    if p in c.returns_param:
+                                        a = self._arg_for(expr, c, p, method_call=True)
+                                        if a is not None:
+                                            out |= src_params(a)
+                            return out
+                        # unknown method: it may return (part of) the receiver
                         return set(al[r])
                     return set()
                 if isinstance(f, ast.Name):
